@@ -34,6 +34,18 @@ const (
 // ErrStreamFailed is returned by a stream after a fault.
 var ErrStreamFailed = errors.New("scriptstream: connection failed (injected)")
 
+// timeoutError is what a connection which timed out reports, again and again
+// (ETIMEDOUT, a TLS connection after a deadline): a net.Error whose Timeout()
+// is true.
+type timeoutError struct{}
+
+func (timeoutError) Error() string   { return "scriptstream: i/o timeout (injected)" }
+func (timeoutError) Timeout() bool   { return true }
+func (timeoutError) Temporary() bool { return true }
+
+// ErrStreamTimeout is the failure of a stream whose FailTimeout is set.
+var ErrStreamTimeout error = timeoutError{}
+
 // ErrStreamClosed is returned after the local side closed the stream.
 var ErrStreamClosed = errors.New("scriptstream: use of closed connection")
 
@@ -73,6 +85,8 @@ type ScriptStream struct {
 	// stays blocked until the peer says something or Release is called; Reads
 	// and Writes started after the Close fail.
 	LazyClose bool
+	// FailTimeout: the error of a failed stream says Timeout() == true
+	FailTimeout bool
 	lazyHold  bool // a Read was blocked when the lazy Close happened and is still held
 
 	// OnWrite is called inside Write, after the bytes were recorded and
@@ -90,6 +104,13 @@ func NewScriptStream(f *Fault) *ScriptStream {
 	s := &ScriptStream{fault: f}
 	s.cond = sync.NewCond(&s.mu)
 	return s
+}
+
+func (s *ScriptStream) failure() error {
+	if s.FailTimeout {
+		return ErrStreamTimeout
+	}
+	return ErrStreamFailed
 }
 
 func (s *ScriptStream) String() string           { return "script://stream" }
@@ -145,10 +166,10 @@ func (s *ScriptStream) Read(p []byte) (int, error) {
 		return 0, io.EOF
 	}
 	if s.armedFail {
-		s.failed = ErrStreamFailed
+		s.failed = s.failure()
 		s.cond.Broadcast()
 		s.mu.Unlock()
-		return 0, ErrStreamFailed
+		return 0, s.failure()
 	}
 	k, f := s.nextOp()
 	yield := s.YieldEvery > 0 && k%s.YieldEvery == 0
@@ -157,10 +178,10 @@ func (s *ScriptStream) Read(p []byte) (int, error) {
 		switch f.Kind {
 		case FaultReadError:
 			s.fire(k, f)
-			s.failed = ErrStreamFailed
+			s.failed = s.failure()
 			s.cond.Broadcast()
 			s.mu.Unlock()
-			return 0, ErrStreamFailed
+			return 0, s.failure()
 		case FaultReadEOF:
 			s.fire(k, f)
 			s.failed = io.EOF
@@ -192,10 +213,10 @@ func (s *ScriptStream) Read(p []byte) (int, error) {
 				n = len(s.in)
 			}
 			if n == 0 { // nothing to deliver: plain error
-				s.failed = ErrStreamFailed
+				s.failed = s.failure()
 				s.cond.Broadcast()
 				s.mu.Unlock()
-				return 0, ErrStreamFailed
+				return 0, s.failure()
 			}
 			copy(p, s.in[:n])
 			s.in = s.in[n:]
@@ -246,17 +267,17 @@ func (s *ScriptStream) Write(p []byte) (int, error) {
 		return 0, ErrStreamClosed
 	}
 	if s.armedFail && s.failed == nil {
-		s.failed = ErrStreamFailed
+		s.failed = s.failure()
 		s.cond.Broadcast()
 	}
 	if s.failed != nil || s.inClosed {
 		s.mu.Unlock()
-		return 0, ErrStreamFailed
+		return 0, s.failure()
 	}
 	if s.WritesFail {
 		s.ops++
 		s.mu.Unlock()
-		return 0, ErrStreamFailed
+		return 0, s.failure()
 	}
 	k, f := s.nextOp()
 	yield := s.YieldEvery > 0 && k%s.YieldEvery == 0
@@ -266,10 +287,10 @@ func (s *ScriptStream) Write(p []byte) (int, error) {
 			// a read fault scheduled on an operation that turned out to be a
 			// write fails the connection at that point all the same
 			s.fire(k, f)
-			s.failed = ErrStreamFailed
+			s.failed = s.failure()
 			s.cond.Broadcast()
 			s.mu.Unlock()
-			return 0, ErrStreamFailed
+			return 0, s.failure()
 		case FaultWritePartial:
 			s.fire(k, f)
 			n := f.Part
@@ -281,16 +302,16 @@ func (s *ScriptStream) Write(p []byte) (int, error) {
 			}
 			s.out = append(s.out, append([]byte{}, p[:n]...))
 			s.outBytes += n
-			s.failed = ErrStreamFailed
+			s.failed = s.failure()
 			s.cond.Broadcast()
 			s.mu.Unlock()
-			return n, ErrStreamFailed
+			return n, s.failure()
 		case FaultPeerClose:
 			s.fire(k, f)
 			s.inClosed = true
 			s.cond.Broadcast()
 			s.mu.Unlock()
-			return 0, ErrStreamFailed
+			return 0, s.failure()
 		case FaultHalfClose:
 			s.fire(k, f)
 			s.halfClosed = true
@@ -370,7 +391,7 @@ func (s *ScriptStream) PeerClose() {
 func (s *ScriptStream) Fail() {
 	s.mu.Lock()
 	if s.failed == nil {
-		s.failed = ErrStreamFailed
+		s.failed = s.failure()
 	}
 	s.cond.Broadcast()
 	s.mu.Unlock()
